@@ -257,6 +257,23 @@ Definition wf_bms_lines (lay : slayout) (lines : list text) : bool :=
                               | Some x, Some y => x =? y | _, _ => false end)
                (filter (fun o => match lane_of lay (o_chan o) with Some _ => true | None => false end) objs).
 
+(* the clauses of wf_bms_lines the read theorem uses (no 192-subdivision cap, no ASCII / non-empty-value / id-syntax
+   clauses): the text-level domain under which the reader and the writer are composed (C05) *)
+Definition text_domb (lay : slayout) (lines : list text) : bool :=
+  let hs := headers_of lines in
+  let objs := flat_map objs_of_line lines in
+  forallb (fun l => text_eqb (strip l) l && line_kind_ok l) lines
+  && no_dup_by text_eqb (map fst hs)
+  && forallb (fun kv => forallb (fun c => negb (is_lower c)) (fst kv)) hs
+  && forallb (fun l => match data_line l with Some (_, ch, _) => negb (text_eqb ch CH_TIME_SIG) | None => true end) lines
+  && forallb (fun kv => if starts_with S_WAV (fst kv) || (starts_with S_BPM (fst kv) && negb (text_eqb (fst kv) S_BPM))
+                        then (length (fst kv) =? 5)%nat else true) hs
+  && match bms_denote lay lines with
+     | None => false
+     | Some d => forallb (fun tb => Qlt_bool 0 (snd tb)) (d_tempo d)
+     end
+  && no_dup_by same_pos (filter (fun o => is_tempo_chan (o_chan o)) objs).
+
 (* the extra guard under which the read theorem holds of the present code (the excluded class is a finding):
    every tempo object is on the 1/96 grid relative to the previous tempo object *)
 Fixpoint pairwise_grid (tbl : list Q) (prev : bcs) (l : list bcs) : bool :=
@@ -524,3 +541,107 @@ Definition read_guards (tbl : list Q) (lines : list text) : bool :=
      | Some tempos => origin_tempo_first tempos
      | None => true
      end.
+
+(* ================================================================ C04: the guard of the initial-tempo clause (reseat, C11) ================================================================ *)
+From RV Require Import Timing.Reseat Timing.ReseatSpec Timing.ReseatDomain.
+Open Scope Z_scope.
+(* the second change of a list does not lie inside the first measure (C11: gap_mq = whole measures in the gap) *)
+Definition first_gap_ge1 (l : list bcs) : bool :=
+  match l with
+  | c :: n :: _ => (1 <=? gap_mq (bs_met c) (seg_beats (bs_met c) (bs_snap c) (bs_snap n)))%Z
+  | _ => true
+  end.
+(* decidable on the text: the tempo script of the text, in the form TimingMap.reseat() sees it (millisecond form, positions
+   re-derived), lies in C11's domain wf_unseated and inside C11's guard no_extend (no gap remainder in the extend window
+   (0, 0.001] -- implied by the 1/96 grid), and no tempo object lies strictly inside measure 0 (such a change is
+   re-expressed by reseat as a shorter first measure with a scaled tempo: the initial tempo is then not retained) *)
+Definition reseat_textb (tbl : list Q) (lines : list text) : bool :=
+  let hs := headers_of lines in
+  match hlookup S_BPM hs with
+  | Some bv =>
+      match parse_decimal bv, tempo_objs (table_of S_BPM hs) (flat_map objs_of_line lines) with
+      | Some bpm0, Some tempos =>
+          match from_bcs 0 (script_of bpm0 tempos) with
+          | Some tm =>
+              match bco_to_bcs tbl (sort_by bco_lt tm) with
+              | Some l' => wf_unseated l' && no_extend THRESHOLD l' && first_gap_ge1 l'
+              | None => false
+              end
+          | None => false
+          end
+      | _, _ => false
+      end
+  | None => false
+  end.
+
+(* ================================================================ C04: "the chart is the chart the text denotes", as a proposition ================================================================ *)
+(* rows up to order (the format does not order the objects of a text), times by value, everything else exactly *)
+From Coq Require Import Sorting.Permutation.
+Definition hit_matches (s : shit) (h : hit) : Prop :=
+  h_col h = sh_col s /\ (h_off h == sh_time s)%Q /\ h_sample h = sh_sample s.
+Definition hold_matches (s : shold) (l : hold) : Prop :=
+  ho_col l = sl_col s /\ (ho_off l == sl_time s)%Q /\ (ho_len l == sl_len s)%Q /\ ho_sample l = sl_sample s.
+Definition chart_denotes (c : bms_chart) (d : denotation) : Prop :=
+  (exists hs, Permutation hs (d_hits d) /\ Forall2 hit_matches hs (c_hits c))
+  /\ (exists ls, Permutation ls (d_holds d) /\ Forall2 hold_matches ls (c_holds c))
+  /\ m_title (c_meta c) = or_empty (hlookup S_TITLE (d_headers d))
+  /\ m_artist (c_meta c) = or_empty (hlookup S_ARTIST (d_headers d))
+  /\ m_version (c_meta c) = or_empty (hlookup S_PLAYLEVEL (d_headers d))
+  /\ m_lnobj (c_meta c) = d_lnobj d
+  /\ m_exbpms (c_meta c) = d_ext d
+  /\ m_samples (c_meta c) = d_wav d
+  /\ (forall k v, In (k, v) (d_headers d) -> is_table_key S_BPM k = false -> is_table_key S_WAV k = false ->
+                  k <> S_BPM -> In (k, v) (m_misc (c_meta c))).
+
+(* ================================================================ C05: the domain and the statement of bms_write_denotes ================================================================ *)
+From RV Require Import Timing.Domain2.
+Open Scope Z_scope.
+(* the chart's tempo list, re-derived as a script (positions) *)
+Definition wscript (tbl : list Q) (c : wchart) : option (list bcs) := bco_to_bcs tbl (sort_by bco_lt (w_bpms c)).
+Definition bco_same (a b : bco) : bool := Q_same (bo_bpm a) (bo_bpm b) && Q_same (bo_met a) (bo_met b) && Q_same (bo_off a) (bo_off b).
+(* the tempo list is sorted, is (in reduced fractions) the millisecond form of its own script, and that script lies in
+   C10's on-grid domain *)
+Definition tempo_dom (tbl : list Q) (c : wchart) : bool :=
+  match wscript tbl c with
+  | Some l => domainb tbl l []
+              && match from_bcs 0 l with Some s => list_same bco_same s (w_bpms c) | None => false end
+              && list_same bco_same (sort_by bco_lt (w_bpms c)) (w_bpms c)
+  | None => false
+  end.
+(* ':.3f' prints the tempo without loss (the excluded class is the known finding bpm-3f-rounding) *)
+Definition bpm_3f_ok (b : bco) : bool :=
+  match parse_decimal (fmt_fixed 3 (bo_bpm b)) with Some q => Q_same q (bo_bpm b) | None => false end.
+(* a misc header key: one word, not starting with a digit, none of the keys the writer emits itself *)
+Definition misc_key_ok (k : text) : bool :=
+  negb (existsb (Z.eqb 32) k) && match k with c :: _ => negb (is_digit c) | [] => false end
+  && negb (text_eqb k S_LNOBJ) && negb (is_table_key S_BPM k) && negb (is_table_key S_WAV k).
+Definition write_dom (tbl : list Q) (mk : Z) (lay : slayout) (dflt : text) (c : wchart) : bool :=
+  layout_ok mk lay && wf_wchart 0 tbl lay dflt c && tempo_dom tbl c
+  && forallb (fun b => Q_same (bo_met b) 4 && bpm_3f_ok b) (w_bpms c)
+  && forallb (fun kv => misc_key_ok (fst kv)) (w_misc c).
+
+(* a written file as plain lines; the initial tempo is printed by str(float), an oracle: any rendering [r] *)
+Definition render_with (r : Q -> text) (w : wline) : text :=
+  match w with WText t => t | WBpm0 q => T_BPM ++ [32] ++ r q end.
+
+(* the denoted time t of an object whose in-memory time is o: within 1/192 beat of the tempo in force at o, and exactly o
+   when o lies on the snap grid relative to the tempo change in force (C10's active_at_time / time_on_gridb) *)
+Definition time_rt (tbl : list Q) (l : list bcs) (o t : Q) : Prop :=
+  (192 * Qabs (t - o) <= beat_len (bs_bpm (snd (active_at_time 0 l o))))%Q
+  /\ (time_on_gridb tbl 0 l o = true -> (t == o)%Q).
+(* the sample a written object denotes: the file name registered under the id the writer chose *)
+Definition sample_id (c : wchart) (dflt : text) (s : text) : text :=
+  match samples_rev (w_samples c) s with Some k => k | None => dflt end.
+Definition written_denotes (tbl : list Q) (dflt : text) (c : wchart) (l : list bcs) (d : denotation) : Prop :=
+  (exists hs, Permutation hs (d_hits d)
+     /\ Forall2 (fun h s => sh_col s = h_col h /\ time_rt tbl l (h_off h) (sh_time s)
+                            /\ sh_sample s = sample_of (w_samples c) (sample_id c dflt (h_sample h))) (w_hits c) hs)
+  /\ (exists ls, Permutation ls (d_holds d)
+     /\ Forall2 (fun h s => sl_col s = ho_col h /\ time_rt tbl l (ho_off h) (sl_time s)
+                            /\ time_rt tbl l (Qred (ho_off h + ho_len h)) (sl_time s + sl_len s)
+                            /\ sl_sample s = sample_of (w_samples c) (sample_id c dflt (ho_sample h))) (w_holds c) ls)
+  /\ Forall2 (fun b tb => (fst tb == bo_off b)%Q /\ snd tb = bo_bpm b) (w_bpms c) (d_tempo d)
+  /\ hlookup S_TITLE (d_headers d) = Some (w_title c) /\ hlookup S_ARTIST (d_headers d) = Some (w_artist c)
+  /\ hlookup S_PLAYLEVEL (d_headers d) = Some (w_version c)
+  /\ d_lnobj d = w_lnobj c /\ d_wav d = w_samples c
+  /\ (forall kv, In kv (w_misc c) -> In kv (d_headers d)).
